@@ -28,6 +28,18 @@ type Obligation struct {
 	Because    string `json:"because"`
 	Nontrivial bool   `json:"nontrivial"`
 	Known      string `json:"known_finding,omitempty"`
+	// Config is the extra build configuration (goos/goarch) the obligation was generated
+	// under in the thorough tier; empty for the default configuration. It is not part of
+	// the obligation's identity: known findings are keyed on (property, rule, construct).
+	Config string `json:"config,omitempty"`
+}
+
+// label is the construct as shown to the user (with the build configuration, if any).
+func (o Obligation) label() string {
+	if o.Config != "" {
+		return o.Construct + " @" + o.Config
+	}
+	return o.Construct
 }
 
 type KnownFinding struct {
@@ -149,6 +161,7 @@ type replayFile struct {
 	Kind      Status `json:"kind"`
 	Because   string `json:"because"`
 	Replay    string `json:"how_to_replay"`
+	Config    string `json:"config,omitempty"`
 }
 
 // finish prints the report, writes evidence + replay files and returns the exit code.
@@ -168,7 +181,7 @@ func (r *Run) finish(verifDir string, seed int64, start time.Time, only *replayF
 	if only != nil {
 		var keep []Obligation
 		for _, o := range r.Obs {
-			if o.Rule == only.Rule && o.Construct == only.Construct {
+			if o.Rule == only.Rule && o.Construct == only.Construct && o.Config == only.Config {
 				keep = append(keep, o)
 			}
 		}
@@ -219,23 +232,28 @@ func (r *Run) finish(verifDir string, seed int64, start time.Time, only *replayF
 		fmt.Printf("rule %-34s discharged=%-4d failed=%-3d known=%d\n", k, c[0], c[1], c[2])
 	}
 	vn := 0
+	knownShown := map[string]bool{}
 	for _, o := range r.Obs {
 		if o.Status == StOK {
 			continue
 		}
 		if o.Known != "" {
-			fmt.Printf("KNOWN-FINDING: property=%s %s [%s %s %s]\n", r.Prop, o.Known, o.Rule, o.Construct, o.Pos)
+			// one line per listed finding, however many build configurations exhibit it
+			if k := o.Rule + "|" + o.Construct; !knownShown[k] {
+				knownShown[k] = true
+				fmt.Printf("KNOWN-FINDING: property=%s %s [%s %s %s]\n", r.Prop, o.Known, o.Rule, o.Construct, o.Pos)
+			}
 			continue
 		}
 		vn++
 		rp := filepath.Join(rpDir, fmt.Sprintf("%s-%d.json", r.Prop, vn))
 		if only == nil {
 			b, _ := json.MarshalIndent(replayFile{Property: r.Prop, Rule: o.Rule, Construct: o.Construct, Pos: o.Pos, Kind: o.Status, Because: o.Because,
-				Replay: "/verif/bin/secscheck -replay " + rp}, "", " ")
+				Replay: "/verif/bin/secscheck -replay " + rp, Config: o.Config}, "", " ")
 			_ = os.WriteFile(rp, b, 0o644)
 		}
 		fmt.Printf("VIOLATION property=%s replay=%s\n", r.Prop, rp)
-		fmt.Printf("  %s %s %s [%s] — %s\n", o.Rule, o.Pos, o.Construct, o.Status, o.Because)
+		fmt.Printf("  %s %s %s [%s] — %s\n", o.Rule, o.Pos, o.label(), o.Status, o.Because)
 	}
 
 	if only == nil {
